@@ -36,11 +36,13 @@ THEOREMS = [
     "Exit.C07_atexit_once_per_effective_start", "Exit.C07_atexit_at_most_once_without_stop", "Exit.C07_exit_drains_and_joins",
     "Exit.C07_handler_id_never_stale", "Exit.C07_F23_stale_id_hangs", "Exit.C07_neg_once_flag_not_renewed",
     "Exit.C07_signal_in_any_cycle", "Exit.C07_signal_outside_handler_cycle",
+    "Exit.C07_program_conservation", "Exit.C07_program_life", "Exit.C07_stop_writes_everything",
+    "Exit.C07_exit_writes_everything", "Exit.C07_program_signal",
     "Obligations.exit_extraction_complete", "Obligations.exit_onSignal_agrees", "Obligations.exit_catchable_is_handled",
     "Obligations.exit_alarm_not_catchable", "Obligations.exit_catchable_no_duplicates", "Obligations.exit_life_params_repaired",
     "Obligations.exit_wait_for_queues_default", "Obligations.exit_worker_structure", "Obligations.exit_drain_structure",
     "Obligations.exit_start_stop_structure", "Obligations.exit_handler_installation", "Obligations.C07_signal_extracted",
-    "Obligations.C07_restart_extracted",
+    "Obligations.C07_restart_extracted", "Obligations.C07_program_extracted",
 ]
 MODULES = ["QuillModel.Props.C07"]
 OBLIG = ["QuillModel.Obligations.Exit"]
